@@ -480,7 +480,8 @@ pub fn bound_parse_rule(cx: &Cx, rep: &mut Report) {
     let ev = mk_ev(ix);
     let outs = ev.call_fn(St::new(), &pushf, Some(Val::Struct { name: "Bounds".into(), fields: vec![(fdef.clone(), Val::Bool(false))] }), vec![Val::Enum { ty: "Bound".into(), var: "Default".into(), args: vec![Val::Unit] }]);
     let _ = outs;
-    let assigns_true = pushf.block.to_token_stream().to_string().replace(' ', "").contains(&format!("self.{fdef}=true"));
+    // read off the evaluation: the `..` path assigns the constant `true` to the continue flag
+    let assigns_true = seen.get("Default").map(|ns| ns.iter().any(|n| n.replace(' ', "").starts_with(&format!("assigned-valueself.{fdef}:=true")))).unwrap_or(false);
     rep.check(assigns_true, "DM-bound-parse", &pushf.qual, "dotdot-true", "`..` does not set the continue flag to true", &site(&pushf), json!({}));
 }
 
@@ -617,6 +618,8 @@ pub fn mentions_param_rule(cx: &Cx, rep: &mut Report) {
     for (st, _) in &outs {
         let ns = notes(st);
         let sets = ns.iter().any(|n| n.replace(' ', "").starts_with("field-assignself.result"));
+        // the flag must be switched ON
+        if sets && !ns.iter().any(|n| n.starts_with("assigned-value self.result := true")) { bad_set = true; }
         let lead_none = st.cond.iter().find(|(a, _)| a.contains("leading_colon")).map(|(a, b)| if a.contains("is_none") { *b } else { !*b });
         let contains = st.cond.iter().find(|(a, _)| a.contains(".contains")).map(|(a, b)| (a.clone(), *b));
         if sets {
